@@ -276,6 +276,233 @@ Qed.
 End TwoP.
 
 (* ------------------------------------------------------------------ *)
+(* Two indices: assembling blocks commutes with block-diagonal maps    *)
+(* ------------------------------------------------------------------ *)
+Lemma map2_combine {B C D} (f : B -> C -> D) a b :
+  map (fun '(x, y) => f x y) (combine a b) = map2 f a b.
+Proof. revert b; induction a as [|x a IH]; intros [|y b]; cbn; [reflexivity..|]. now rewrite IH. Qed.
+
+Lemma hcat_cons {B} (m : list (list B)) rest : rest <> [] ->
+  hcat (m :: rest) = map2 (@app B) m (hcat rest).
+Proof. intros H. destruct rest as [|m' r]; [congruence|]. cbn [hcat]. now rewrite map2_combine. Qed.
+
+Lemma map2_map_same {B C D E} (f : C -> D -> E) (g : B -> C) (h : B -> D) l :
+  map2 f (map g l) (map h l) = map (fun x => f (g x) (h x)) l.
+Proof. induction l as [|x l IH]; cbn; [reflexivity|]. now rewrite IH. Qed.
+
+Lemma map_map2 {B C D E} (g : D -> E) (f : B -> C -> D) a b :
+  map g (map2 f a b) = map2 (fun x y => g (f x y)) a b.
+Proof. revert b; induction a as [|x a IH]; intros [|y b]; cbn; [reflexivity..|]. now rewrite IH. Qed.
+
+Lemma map2_map_l {B B' C D} (f : B -> C -> D) (g : B' -> B) a b :
+  map2 f (map g a) b = map2 (fun x y => f (g x) y) a b.
+Proof. revert b; induction a as [|x a IH]; intros [|y b]; cbn; [reflexivity..|]. now rewrite IH. Qed.
+
+Lemma map2_ext_in {B C D} (f g : B -> C -> D) a b :
+  (forall x y, In x a -> In y b -> f x y = g x y) -> map2 f a b = map2 g a b.
+Proof.
+  revert b; induction a as [|x a IH]; intros [|y b] H; cbn; [reflexivity..|].
+  rewrite H by (now left). rewrite IH; [reflexivity|]. intros; apply H; now right.
+Qed.
+
+Lemma Forall_map2_app {B} (Q : list B -> Prop) (R1 R2 : list B -> Prop) a b :
+  (forall x y, R1 x -> R2 y -> Q (x ++ y)) -> Forall R1 a -> Forall R2 b -> Forall Q (map2 (@app B) a b).
+Proof.
+  intros H Ha. revert b. induction Ha as [|x a Hx Ha IH]; intros [|y b] Hb; cbn; constructor.
+  - inversion Hb; subst. now apply H.
+  - inversion Hb; subst. now apply IH.
+Qed.
+
+Section AsmP.
+Context {F : Type} (K : Fops F).
+Context {A : Type} (azero : A) (aadd : A -> A -> A) (ascale : F -> A -> A).
+Context (P : A -> Prop).
+Hypothesis Pz : P azero.
+Hypothesis Pa : forall x y, P x -> P y -> P (aadd x y).
+Hypothesis Ps : forall t x, P x -> P (ascale t x).
+Hypothesis A0l : forall x, P x -> aadd azero x = x.
+Hypothesis A0r : forall x, P x -> aadd x azero = x.
+Hypothesis S0 : forall x, P x -> ascale (f0 K) x = azero.
+Hypothesis S1 : forall x, P x -> ascale (f1 K) x = x.
+
+Notation linA := (lin azero aadd ascale).
+Notation mat_right' := (mat_right azero aadd ascale).
+Notation mat_left_w' := (mat_left_w azero aadd ascale).
+Notation dotR w := (dot (rzero azero w) (radd aadd) (rscale ascale)).
+
+(* a matrix all of whose rows have width w and entries in P *)
+Definition mat_ok (w : nat) (m : list (list A)) : Prop := Forall (Prow P w) m.
+
+Lemma hcat_ok ws Ms : Forall2 mat_ok ws Ms -> mat_ok (fold_right plus 0 ws) (hcat Ms).
+Proof.
+  induction 1 as [|w M ws Ms HM HF IH]; [constructor|].
+  destruct Ms as [|M' Ms'].
+  - inversion HF; subst. cbn [hcat fold_right]. now rewrite Nat.add_0_r.
+  - rewrite hcat_cons by discriminate. cbn [fold_right].
+    eapply Forall_map2_app; [|exact HM|exact IH].
+    intros x y [Lx Hx] [Ly Hy]. split; [rewrite app_length; lia | now apply Forall_app].
+Qed.
+
+(* T on index 1 distributes over horizontal concatenation *)
+Lemma mat_right_hcat Us Cs :
+  Forall2 (fun U C => rect U /\ mat_ok (ncols U) C) Us Cs ->
+  mat_right' (bdiag K Us) (hcat Cs) = hcat (map2 mat_right' Us Cs).
+Proof.
+  induction 1 as [|U C Us Cs [HU HC] HF IH]; [reflexivity|].
+  destruct Cs as [|C' Cs'].
+  - inversion HF; subst. cbn [hcat map2]. unfold mat_right. apply map_ext_in. intros r Hr.
+    unfold mat_ok in HC. rewrite Forall_forall in HC. destruct (HC _ Hr) as [Lr Pr].
+    rewrite <- (app_nil_r r) at 1.
+    rewrite (lin_bdiag_cons K azero aadd ascale P); auto. cbn. apply app_nil_r.
+  - inversion HF as [|U' ? Us' ? HUC' HF' E1 E2]; subst.
+    rewrite hcat_cons by discriminate.
+    change (map2 mat_right' (U :: U' :: Us') (C :: C' :: Cs'))
+      with (mat_right' U C :: map2 mat_right' (U' :: Us') (C' :: Cs')).
+    rewrite (hcat_cons (mat_right' U C)) by (cbn; discriminate). rewrite <- IH.
+    unfold mat_right. rewrite map_map2, map2_map_l, map2_map_r.
+    assert (HH : mat_ok (fold_right plus 0 (map (@ncols F) (U' :: Us'))) (hcat (C' :: Cs'))).
+    { apply hcat_ok. clear - HF. induction HF as [|? ? ? ? [_ H] _ IH']; cbn; constructor; auto. }
+    apply map2_ext_in. intros r1 r2 H1 H2.
+    unfold mat_ok in HC, HH. rewrite Forall_forall in HC, HH.
+    destruct (HC _ H1) as [L1 P1]. destruct (HH _ H2) as [L2 P2].
+    apply (lin_bdiag_cons K azero aadd ascale P); auto.
+Qed.
+
+Lemma dotR_length w t m : Forall (fun r : list A => length r = w) m -> length (dotR w t m) = w.
+Proof.
+  intros H. apply (dot_P (rzero azero w) (radd aadd) (rscale ascale) (fun r => length r = w)); auto.
+  - apply repeat_length.
+  - intros x y Hx Hy. unfold radd. rewrite map2_length; lia.
+  - intros a x Hx. unfold rscale. now rewrite map_length.
+Qed.
+
+Lemma dotR_app w1 w2 t m1 m2 :
+  length m1 = length m2 -> Forall (fun r : list A => length r = w1) m1 ->
+  dotR (w1 + w2) t (map2 (@app A) m1 m2) = dotR w1 t m1 ++ dotR w2 t m2.
+Proof.
+  revert m1 m2. induction t as [|a t IH]; intros m1 m2 HL H1.
+  - destruct m1, m2; cbn; unfold rzero; now rewrite repeat_app.
+  - destruct m1 as [|r1 m1], m2 as [|r2 m2]; cbn in HL; try lia.
+    + cbn. unfold rzero; now rewrite repeat_app.
+    + cbn [map2 dot]. inversion H1; subst. rewrite IH by (assumption || lia).
+      unfold radd, rscale. rewrite map_app. apply map2_app.
+      rewrite map_length. symmetry. now apply dotR_length.
+Qed.
+
+Lemma mat_left_app w1 w2 U m1 m2 :
+  length m1 = length m2 -> Forall (fun r : list A => length r = w1) m1 ->
+  mat_left_w' (w1 + w2) U (map2 (@app A) m1 m2) = map2 (@app A) (mat_left_w' w1 U m1) (mat_left_w' w2 U m2).
+Proof.
+  intros HL H1. unfold mat_left_w, lin. rewrite map2_map_same. apply map_ext. intros t. now apply dotR_app.
+Qed.
+
+Lemma hcat_length {B} R (Ms : list (list (list B))) : Ms <> [] ->
+  Forall (fun M => length M = R) Ms -> length (hcat Ms) = R.
+Proof.
+  intros Hne H. induction H as [|M Ms HM HF IH]; [congruence|].
+  destruct Ms as [|M' Ms']; [exact HM|]. rewrite hcat_cons by discriminate.
+  rewrite map2_length; [exact HM|]. rewrite IH by discriminate. exact HM.
+Qed.
+
+(* T on index 0 distributes over horizontal concatenation *)
+Lemma mat_left_hcat U R ws Ms :
+  Forall2 (fun w M => length M = R /\ Forall (fun r : list A => length r = w) M) ws Ms -> Ms <> [] ->
+  mat_left_w' (fold_right plus 0 ws) U (hcat Ms) = hcat (map2 (fun w M => mat_left_w' w U M) ws Ms).
+Proof.
+  induction 1 as [|w M ws Ms [HR HM] HF IH]; [congruence|]. intros _.
+  destruct Ms as [|M' Ms'].
+  - inversion HF; subst. cbn [hcat map2 fold_right]. now rewrite Nat.add_0_r.
+  - inversion HF as [|w' ? ws' ? HWM' HF' E1 E2]; subst.
+    rewrite hcat_cons by discriminate.
+    change (fold_right plus 0 (w :: w' :: ws')) with (w + fold_right plus 0 (w' :: ws')).
+    rewrite mat_left_app; [| |exact HM].
+    + rewrite IH by discriminate.
+      change (map2 (fun w M => mat_left_w' w U M) (w :: w' :: ws') (M :: M' :: Ms'))
+        with (mat_left_w' w U M :: map2 (fun w M => mat_left_w' w U M) (w' :: ws') (M' :: Ms')).
+      now rewrite (hcat_cons (mat_left_w' w U M)) by (cbn; discriminate).
+    + rewrite (hcat_length (length M)) ; [reflexivity|discriminate|].
+      clear - HF. induction HF as [|? ? ? ? [H _] _ IH']; constructor; auto.
+Qed.
+
+Lemma mk_map2 {B C D} (f : B -> C -> D) n g h : map2 f (mk n g) (mk n h) = mk n (fun j => f (g j) (h j)).
+Proof. unfold mk. apply map2_map_same. Qed.
+
+Lemma Forall2_mk {B C} (R : B -> C -> Prop) n g h :
+  (forall j, j < n -> R (g j) (h j)) -> Forall2 R (mk n g) (mk n h).
+Proof.
+  unfold mk. intros H. assert (H' : forall j, In j (seq 0 n) -> R (g j) (h j)).
+  { intros j Hj. apply in_seq in Hj. apply H. lia. }
+  clear H. induction (seq 0 n) as [|x l IH]; cbn; constructor.
+  - apply H'. now left.
+  - apply IH. intros j Hj. apply H'. now right.
+Qed.
+
+Lemma Forall_mk {B} (Q : B -> Prop) n g : (forall j, j < n -> Q (g j)) -> Forall Q (mk n g).
+Proof.
+  intros H. unfold mk. apply Forall_forall. intros x Hx. apply in_map_iff in Hx.
+  destruct Hx as [j [<- Hj]]. apply in_seq in Hj. apply H. lia.
+Qed.
+
+Lemma map_mk {B C} (f : B -> C) n g : map f (mk n g) = mk n (fun j => f (g j)).
+Proof. unfold mk. now rewrite map_map. Qed.
+
+(* Assembling blocks commutes with block-diagonal maps: if every block B i j is
+   U1 i applied on index 0 and U2 j on index 1 of the block C i j, the assembled
+   array of the B's is (+)U1 on index 0 and (+)U2 on index 1 of the assembled C's. *)
+Lemma asm_blocks n1 n2 (U1 U2 : nat -> list (list F)) (Cf Bf : nat -> nat -> list (list A)) :
+  0 < n2 ->
+  (forall i j, i < n1 -> j < n2 ->
+     Bf i j = mat_left_w' (length (U2 j)) (U1 i) (mat_right' (U2 j) (Cf i j))) ->
+  (forall i, i < n1 -> rect (U1 i)) -> (forall j, j < n2 -> rect (U2 j)) ->
+  (forall i j, i < n1 -> j < n2 -> length (Cf i j) = ncols (U1 i) /\ mat_ok (ncols (U2 j)) (Cf i j)) ->
+  two_asymm_blocks n1 n2 Bf
+  = mat_left_w' (fold_right plus 0 (mk n2 (fun j => length (U2 j)))) (bdiag K (mk n1 U1))
+      (mat_right' (bdiag K (mk n2 U2)) (two_asymm_blocks n1 n2 Cf)).
+Proof.
+  intros Hn2 HB HU1 HU2 HC. unfold two_asymm_blocks, vcat.
+  set (W := fold_right plus 0 (mk n2 (fun j => length (U2 j)))).
+  set (X := fun i => hcat (mk n2 (fun j => mat_right' (U2 j) (Cf i j)))).
+  assert (E1 : mat_right' (bdiag K (mk n2 U2)) (concat (mk n1 (fun i => hcat (mk n2 (fun j => Cf i j)))))
+               = concat (mk n1 X)).
+  { unfold mat_right at 1. rewrite concat_map, map_mk. f_equal. apply mk_ext. intros i Hi.
+    change (map (lin azero aadd ascale (bdiag K (mk n2 U2)))) with (mat_right' (bdiag K (mk n2 U2))).
+    rewrite mat_right_hcat.
+    - unfold X. now rewrite mk_map2.
+    - apply Forall2_mk. intros j Hj. split; [now apply HU2 | now apply HC]. }
+  rewrite E1. clear E1.
+  assert (Hrow : forall i j, i < n1 -> j < n2 ->
+            length (mat_right' (U2 j) (Cf i j)) = ncols (U1 i) /\
+            mat_ok (length (U2 j)) (mat_right' (U2 j) (Cf i j))).
+  { intros i j Hi Hj. destruct (HC i j Hi Hj) as [HL HM]. unfold mat_right. rewrite map_length. split; [exact HL|].
+    unfold mat_ok in *. apply Forall_forall. intros r Hr. apply in_map_iff in Hr. destruct Hr as [r0 [<- Hr0]].
+    rewrite Forall_forall in HM. destruct (HM _ Hr0) as [_ Pr].
+    split; [unfold lin; now rewrite map_length|]. apply (lin_P azero aadd ascale P); auto. }
+  assert (HX : forall i, i < n1 -> length (X i) = ncols (U1 i) /\ mat_ok W (X i)).
+  { intros i Hi. split.
+    - unfold X. apply hcat_length.
+      + unfold mk. destruct n2; [lia|]. cbn. discriminate.
+      + apply Forall_mk. intros j Hj. now apply Hrow.
+    - unfold X, W. apply hcat_ok. apply Forall2_mk. intros j Hj. now apply Hrow. }
+  unfold mat_left_w at 1.
+  rewrite (lin_bdiag K (rzero azero W) (radd aadd) (rscale ascale) (Prow P W)).
+  - rewrite mk_map2. f_equal. apply mk_ext. intros i Hi.
+    change (lin (rzero azero W) (radd aadd) (rscale ascale) (U1 i) (X i)) with (mat_left_w' W (U1 i) (X i)).
+    unfold X, W. rewrite (mat_left_hcat (U1 i) (ncols (U1 i))).
+    + rewrite mk_map2. f_equal. apply mk_ext. intros j Hj. now apply HB.
+    + apply Forall2_mk. intros j Hj. destruct (Hrow i j Hi Hj) as [HL HM]. split; [exact HL|].
+      unfold mat_ok in HM. eapply Forall_impl; [|exact HM]. intros r [Lr _]. exact Lr.
+    + unfold mk. destruct n2; [lia|]. cbn. discriminate.
+  - now apply Prow_zero.
+  - intros; now apply Prow_add.
+  - intros; now apply Prow_scale.
+  - intros; eapply row_A0l; eauto.
+  - intros; eapply (row_S0 K); eauto.
+  - apply Forall2_mk. intros i Hi. destruct (HX i Hi) as [HL HM]. repeat split; auto.
+    now apply HU1.
+Qed.
+End AsmP.
+
+(* ------------------------------------------------------------------ *)
 (* Packaged hypotheses and the statements exported to Props/C09.v      *)
 (* ------------------------------------------------------------------ *)
 (* laws of the module of entries, relativised to the well-shaped entries P
